@@ -58,6 +58,7 @@ SafeCrit(g, cr) ==
 SafeCase(g) ==
   /\ g.kind = "lin" => \A i, j \in 1..g.n : ~(g.num[i][j] * 10 > 135 * g.den /\ g.num[i][j] * 10 < 141 * g.den)
   /\ g.kind = "sim" => g.q <= 4096
+  /\ In.off = 0 \/ (In.src = "pts" /\ In.meth.name = "gauss")     \* shifted records only for the shift-invariant kernel
   /\ \A q \in 1..Len(In.crits) : SafeCrit(g, In.crits[q])
 HasFloor(g) == \E i, j \in 1..g.n : i # j /\ g.fl[i][j]
 ModeOf(g) == IF In.link \in {"single", "complete"} THEN "exact"
